@@ -338,6 +338,37 @@ def r4(ctx):
         except interp.Undecided as e:
             ctx.obligation(False)
             ctx.violation("unreadable/%s" % op, ctx.where(sem.CONFORMS), "cannot evaluate conforms for %s: %s" % (op, e))
+    # (e) the regex operators hand *every* pattern to the regex engine: a pattern is searched for as plain text (no regex
+    # compiled) at most when it holds none of the characters special in regex syntax - a shortcut that forgets one of them
+    # (a counted repetition `b{2}`, say) answers with a literal search where the pattern means something else
+    SPECIAL = "\\.+*?()|[]{}^$"
+    pats = ["abc", "a b-c,d'e#f~g", "ab{2}", "b{2,}", "a.c", "a+", "a?", "a*", "(ab)", "a|b", "[ab]", "^a", "a$", "a\\d"]
+    m = 0
+    for op in ("Rx", "NotRx"):
+        neg = op == "NotRx"
+        for pat in pats:
+            try:
+                res = {}
+                for subj in ("x" + pat + "y", "zzz"):
+                    got, tr = run.run(op, conf.variant(subj), conf.variant(pat), matched=True, is_glob=False)
+                    res[subj] = (got, list(tr["compiled"]))
+            except interp.Undecided as e:
+                ctx.obligation(False)
+                ctx.violation("unreadable/%s" % op, ctx.where(sem.CONFORMS), "cannot evaluate conforms for %s with the pattern `%s`: %s" % (op, pat, e))
+                break
+            m += 1
+            compiled = all(c == [pat] for _g, c in res.values())
+            plain = not any(ch in SPECIAL for ch in pat)
+            shortcut_ok = plain and all(not c for _g, c in res.values()) and all(g == ((pat in subj) != neg) for subj, (g, _c) in res.items())
+            ok = compiled or shortcut_ok
+            ctx.obligation(ok)
+            if not ok:
+                ctx.violation("regex-bypassed/%s" % op, ctx.where(sem.CONFORMS),
+                              "%s with the pattern `%s` does not search with that regular expression (compiled: %s)%s" %
+                              (op, pat, {k: v[1] for k, v in res.items()}, "" if plain else ": the pattern holds regex syntax and is not a plain text"))
+                break
+    ctx.covered("regex operators evaluated on 14 patterns (one per kind of regex syntax, two plain texts): the pattern reaches the regex engine", m,
+                distinct_keys=pats, exhaustive=True)
     ctx.covered("text operators evaluated: translator, subject, polarity, wildcard dispatch, invalid pattern, cached pattern", n,
                 distinct_keys=list(want_tr) + ["Eeq", "Ene"], exhaustive=True)
     # is_glob tests exactly * and ?
